@@ -754,6 +754,9 @@ func main() {
 	for i := 0; i < cfg.N/2; i++ {
 		runCacheHistory(out, root, i+1, "random", randomCacheScript(r))
 	}
+	for i := 0; i < cfg.N/6+2; i++ {
+		runLookups(out, root, i, r)
+	}
 	out.Notes = append(out.Notes, "every schedule is forced: flush commit and obsolete-file deletion run in goroutines parked at the scheduling points; a compaction run is taken as a whole (its model events are emitted as a block, observed at its end)")
 	out.Finish()
 }
